@@ -172,7 +172,24 @@ def run(ctx):
             if any((adt_of(t_.lstrip('&')) or '').endswith('::AcquireError') for t_ in arg_tys):
                 made = sorted({s.rv.j['variant'] for y in cb.blocks for s in y.stmts if s.kind == 'assign' and s.rv.kind == 'agg' and s.rv.j.get('adt') == UERR})
                 ctx.ob('R12.3', 'a failed blocking acquire maps to Closed', made == ['Closed'], ctx.where(cb), 'constructs %s' % made, construct='map-acquire:' + cb.name)
-    timeout_only_from_semaphore(ctx, r, 'R12.3', (r.TRY_GET, r.TIMEOUT_GET, r.TRY_ADD, r.ADD), floor=3)
+    timeout_only_from_semaphore(ctx, r, 'R12.3', (r.TRY_GET, r.TIMEOUT_GET, r.TRY_ADD, r.ADD), floor=2)
+    # the error of a (timed or untimed) waiting acquire is the pool being closed: it is mapped, never discarded (`.ok()`,
+    # `and_then(Result::ok)`, `unwrap_or..` turn Closed into whatever comes next - usually Timeout)
+    DISCARD = {'std::result::Result::ok', 'std::result::Result::unwrap_or', 'std::result::Result::unwrap_or_default', 'std::result::Result::unwrap_or_else', 'std::result::Result::is_ok', 'std::result::Result::is_err'}
+    for b in (r.TRY_GET, r.TIMEOUT_GET, r.TRY_ADD, r.ADD):
+        ban = prog.an(b)
+        for x in b.blocks:
+            t = x.term
+            if t.kind != 'call' or x.cleanup or not t.args:
+                continue
+            direct = bool(t.callee_names() & DISCARD)
+            by_name = any(a.kind == 'const' and a.const.get('fn') and strip_generics(a.const.get('rfn') or a.const['fn']) in DISCARD for a in t.args)
+            if not (direct or by_name):
+                continue
+            src = sources(ban, t.args[0], deep=True)
+            if any(q[0] == 'call' and q[1] in ('tokio::sync::Semaphore::acquire', 'tokio::sync::Semaphore::acquire_many', 'tokio::sync::Semaphore::acquire_owned') for q in src):
+                ctx.ob('R12.3', 'the error of a waiting acquire (the pool was closed) is mapped, never discarded', False, ctx.where(b, t.line),
+                       '%s drops the AcquireError: a waiter woken by close() is told something other than Closed' % sorted(t.callee_names())[0], construct='acquire-error-discarded:' + b.name)
     # ---- R12.5 which primitive each (timeout, runtime) combination reaches: a zero timeout never touches the timer (which
     # panics outside a runtime context), a non-zero one without runtime is a reported error (table shared with C10)
     from .rules_C10 import unmanaged_timeout_table
